@@ -193,6 +193,50 @@ theorem rest_overlap_false_iff (g : List Nat) (gs : List (List Nat)) :
     simp only [List.contains_iff_mem]
     exact fun hmg => h1 h hh m hmg hm
 
+theorem distinct_iff (g : List Nat) : distinct g = true ↔ g.Nodup := by
+  induction g with
+  | nil => simp [distinct]
+  | cons a l ih => simp [distinct, ih]
+
+/-- the argument check made before anything else: every group lists distinct modes of the tensor. -/
+theorem groupsCheck_iff (n : Nat) (grps : List (List Nat)) :
+    groupsCheck n grps = true ↔ ∀ g ∈ grps, g.Nodup ∧ ∀ m ∈ g, m < n := by
+  simp only [groupsCheck, List.all_eq_true, Bool.and_eq_true, distinct_iff, inRange, decide_eq_true_eq]
+  constructor
+  · intro h g hg; exact ⟨(h g hg).2, (h g hg).1⟩
+  · intro h g hg; exact ⟨(h g hg).2, (h g hg).1⟩
+
+theorem ValidGroups.groupsCheck {n : Nat} {grps : List (List Nat)} (V : ValidGroups n grps) :
+    groupsCheck n grps = true := (groupsCheck_iff n grps).2 V.1
+
+theorem symmetrize_of_check [Add α] [Zero α] [One α] [Div α] [NatCast α] [Max α] [BEq α] (T : Dense α)
+    (grps : List (List Nat)) (v : Bool) (h : groupsCheck T.shape.length grps = true) :
+    Sym.symmetrize T (some grps) v = if v = true then symmetrizeOld T grps else symmetrizeNewGo T grps := by
+  simp only [Sym.symmetrize, Option.getD_some, h, Bool.not_true, Bool.false_eq_true, if_false]
+
+theorem symmetrize_reject_of_check [Add α] [Zero α] [One α] [Div α] [NatCast α] [Max α] [BEq α] (T : Dense α)
+    (grps : List (List Nat)) (v : Bool) (h : groupsCheck T.shape.length grps = false) :
+    Sym.symmetrize T (some grps) v = .error .reject := by
+  simp only [Sym.symmetrize, Option.getD_some, h, Bool.not_false, if_true]
+
+theorem issymmetric_new_of_check [Sub α] [Neg α] [LT α] [DecidableLT α] [Zero α] [Max α] [BEq α] (T : Dense α)
+    (grps : List (List Nat)) (v d : Bool) (h : groupsCheck T.shape.length grps = true)
+    (hnew : (!v && !d) = true) {b : Bool} (hb : issymmetricNewGo T grps = .ok b) :
+    Sym.issymmetric T (some grps) v d = .ok (.plain b) := by
+  simp only [Sym.issymmetric, Option.getD_some, h, Bool.not_true, Bool.false_eq_true, if_false, hnew,
+    if_true, hb]
+
+theorem issymmetric_old_of_check [Sub α] [Neg α] [LT α] [DecidableLT α] [Zero α] [Max α] [BEq α] (T : Dense α)
+    (grps : List (List Nat)) (v d : Bool) (h : groupsCheck T.shape.length grps = true)
+    (hnew : ¬ (!v && !d) = true) :
+    Sym.issymmetric T (some grps) v d = issymmetricOld T grps d := by
+  simp only [Sym.issymmetric, Option.getD_some, h, Bool.not_true, Bool.false_eq_true, if_false, hnew]
+
+theorem issymmetric_reject_of_check [Sub α] [Neg α] [LT α] [DecidableLT α] [Zero α] [Max α] [BEq α]
+    (T : Dense α) (grps : List (List Nat)) (v d : Bool) (h : groupsCheck T.shape.length grps = false) :
+    Sym.issymmetric T (some grps) v d = .error .reject := by
+  simp only [Sym.issymmetric, Option.getD_some, h, Bool.not_false, if_true]
+
 theorem ValidGroups.inRangeAll {n : Nat} {grps : List (List Nat)} (V : ValidGroups n grps) :
     InRangeAll n grps := fun g hg => (V.1 g hg).2
 
